@@ -1,4 +1,731 @@
-#[allow(dead_code, unused_imports, unused_variables, unused_mut)]
+// C09 (socket layer) and C13 (poll_at) — raw::Socket never merges, splits, truncates, duplicates or
+// reorders datagrams.  Spliced into src/socket/raw.rs (private fields of `Socket` reachable).
+//
+// Same method as socket_udp.rs: the socket's PacketBuffers (<= 3 metadata slots, <= 56 payload bytes, metadata symbolic) are brought into a pre-state by a fixed script of public-API steps with symbolic arguments
+// (every step may be a no-op), shadowed by a ghost FIFO; then ONE operation under test; then the queue is
+// drained through the public API and compared with the ghost.  A raw datagram is a whole IP packet: here an
+// IPv4 header (20 bytes, every field derived from two symbolic bytes `tag`, `k2` and a symbolic protocol)
+// followed by 0..=4 payload bytes pat(tag, i); also packets cut below 20 bytes, with another version nibble
+// or with fragmentation fields set, which `dispatch` must drop without emitting them.
+#[allow(dead_code, unused_imports, unused_variables, unused_mut, unused_assignments)]
 mod v_socket_raw {
     use super::*;
+    use crate::iface::{Config, Interface};
+    use crate::phy::{ChecksumCapabilities, Medium};
+    use crate::time::Instant;
+    use crate::verif_common::*;
+    use crate::verif_dev::NullDev;
+    use crate::wire::{HardwareAddress, IpAddress, IpCidr, Ipv4Address};
+    #[cfg(feature = "proto-ipv6")]
+    use crate::wire::Ipv6Address;
+
+    const LOCAL: Ipv4Address = Ipv4Address::new(192, 168, 1, 1);
+    const MC: usize = 3; // metadata slots: 2..=3 symbolic
+    const PC: usize = 56; // payload ring (symbolic capacities 0..=8 are explored by socket_udp.rs and storage_packet.rs)
+    const H4: usize = 20; // IPv4 header
+    const PD: usize = 4; // payload bytes: 0..=4
+    const BL: usize = H4 + PD; // largest packet: 24 bytes
+
+    fn pat(tag: u8, i: usize) -> u8 {
+        tag.wrapping_mul(7).wrapping_add(i as u8)
+    }
+    fn src_of(tag: u8, k2: u8) -> Ipv4Address {
+        Ipv4Address::new(10, k2, tag, 1)
+    }
+    fn dst_of(tag: u8, k2: u8) -> Ipv4Address {
+        Ipv4Address::new(k2, 20, 2, tag)
+    }
+    fn hop_of(tag: u8, k2: u8) -> u8 {
+        tag ^ k2
+    }
+
+    // ---------------------------------------------------------------- ghost FIFO
+    #[derive(Clone, Copy)]
+    struct G {
+        valid: bool,
+        /// the datagram offered by the `process` under test: may have been dropped as a whole
+        opt: bool,
+        tag: u8,
+        k2: u8,
+        proto: u8,
+        /// whole packet size (header + payload)
+        size: usize,
+        /// first header byte and flags / fragment offset as written by the user
+        b0: u8,
+        frag: u16,
+    }
+    const GE: G = G { valid: false, opt: false, tag: 0, k2: 0, proto: 0, size: 0, b0: 0, frag: 0 };
+
+    impl G {
+        /// a well-formed, unfragmented IPv4 packet: anything else in the queue is dropped by `dispatch`
+        fn good(&self) -> bool {
+            self.size >= H4 && self.b0 == 0x45 && (self.frag & 0x3fff) == 0
+        }
+        /// the IPv4 packet as bytes; the checksum field holds arbitrary bytes
+        fn bytes(&self, ck: u16) -> [u8; BL] {
+            let s = src_of(self.tag, self.k2).octets();
+            let d = dst_of(self.tag, self.k2).octets();
+            [
+                self.b0, 0, 0, self.size as u8, self.tag, self.k2, (self.frag >> 8) as u8, self.frag as u8,
+                hop_of(self.tag, self.k2), self.proto, (ck >> 8) as u8, ck as u8,
+                s[0], s[1], s[2], s[3], d[0], d[1], d[2], d[3],
+                pat(self.tag, 0), pat(self.tag, 1), pat(self.tag, 2), pat(self.tag, 3),
+            ]
+        }
+    }
+
+    struct Ghost {
+        q: [G; MC],
+        overflow: bool,
+        popped: bool,
+    }
+    impl Ghost {
+        fn new() -> Ghost {
+            Ghost { q: [GE; MC], overflow: false, popped: false }
+        }
+        fn push(&mut self, g: G) {
+            if !self.q[0].valid { self.q[0] = g; }
+            else if !self.q[1].valid { self.q[1] = g; }
+            else if !self.q[2].valid { self.q[2] = g; }
+            else { self.overflow = true; }
+        }
+        fn pop(&mut self) {
+            if self.q[0].valid { self.popped = true; }
+            self.q[0] = self.q[1];
+            self.q[1] = self.q[2];
+            self.q[2] = GE;
+        }
+        fn count(&self) -> usize {
+            self.q[0].valid as usize + self.q[1].valid as usize + self.q[2].valid as usize
+        }
+        fn bytes(&self) -> usize {
+            (if self.q[0].valid { self.q[0].size } else { 0 })
+                + (if self.q[1].valid { self.q[1].size } else { 0 })
+                + (if self.q[2].valid { self.q[2].size } else { 0 })
+        }
+    }
+
+    fn copy_into(buf: &mut [u8], src: &[u8; BL]) {
+        let mut i = 0;
+        while i < BL {
+            if i < buf.len() {
+                buf[i] = src[i];
+            }
+            i += 1;
+        }
+    }
+
+    // ---------------------------------------------------------------- environment
+    macro_rules! env {
+        ($dev:ident, $iface:ident, $cx:ident) => {
+            let mut $dev = NullDev { medium: Medium::Ip, mtu: 1500, checksum: ChecksumCapabilities::ignored() };
+            let mut $iface = Interface::new(Config::new(HardwareAddress::Ip), &mut $dev, Instant::from_millis(0));
+            $iface.update_ip_addrs(|a| {
+                a.push(IpCidr::new(IpAddress::Ipv4(LOCAL), 24)).unwrap();
+            });
+            let $cx = $iface.context();
+        };
+    }
+
+    macro_rules! sock {
+        ($s:ident, $ver:expr, $proto:expr, $rmc:expr, $rpc:expr, $tmc:expr, $tpc:expr) => {
+            let mut rxm = [PacketMetadata::EMPTY; MC];
+            let mut rxp = [0u8; PC];
+            let mut txm = [PacketMetadata::EMPTY; MC];
+            let mut txp = [0u8; PC];
+            let (rmc, rpc, tmc, tpc): (usize, usize, usize, usize) = ($rmc, $rpc, $tmc, $tpc);
+            let mut $s = Socket::new(
+                $ver,
+                $proto,
+                PacketBuffer::new(&mut rxm[..rmc], &mut rxp[..rpc]),
+                PacketBuffer::new(&mut txm[..tmc], &mut txp[..tpc]),
+            );
+        };
+    }
+
+    fn any_slots() -> usize {
+        let v = any_le(MC);
+        kani::assume(v >= 2);
+        v
+    }
+
+    /// bound protocol: none or any protocol number
+    fn any_proto() -> Option<IpProtocol> {
+        if kani::any() { Some(IpProtocol::from(kani::any::<u8>())) } else { None }
+    }
+
+    /// bound version for the IPv4 harnesses: none or IPv4
+    fn none_or_v4() -> Option<IpVersion> {
+        if kani::any() { Some(IpVersion::Ipv4) } else { None }
+    }
+
+    // ---------------------------------------------------------------- transmit side: script steps
+    const VIA_SEND: u8 = 0;
+    const VIA_SLICE: u8 = 1;
+    const VIA_WITH: u8 = 2;
+
+    /// a symbolic packet of 1..=24 bytes (an empty datagram is the subject of raw_send_empty_datagram)
+    fn any_packet() -> G {
+        let size = any_le(BL);
+        kani::assume(size >= 1);
+        let b0: u8 = kani::any();
+        // IPv4 headers with options are outside the bounds
+        kani::assume((b0 >> 4) != 4 || b0 == 0x45);
+        G { valid: true, opt: false, tag: kani::any(), k2: kani::any(), proto: kani::any(), size, b0, frag: kani::any() }
+    }
+
+    fn step_send(s: &mut Socket<'_>, g: &mut Ghost, how: u8) -> bool {
+        if kani::any() {
+            return false;
+        }
+        let m = any_packet();
+        let bytes = m.bytes(kani::any());
+        let size = m.size;
+        let ok = if how == VIA_SEND {
+            match s.send(size) {
+                Ok(buf) => {
+                    copy_into(buf, &bytes);
+                    true
+                }
+                Err(_) => false,
+            }
+        } else if how == VIA_SLICE {
+            s.send_slice(&bytes[..size]).is_ok()
+        } else {
+            let max = any_le(BL);
+            kani::assume(size <= max);
+            s.send_with(max, |b| {
+                copy_into(&mut b[..size], &bytes);
+                size
+            })
+            .is_ok()
+        };
+        if ok {
+            g.push(m);
+        }
+        ok
+    }
+
+    /// does `dispatch` hand this queued packet to `emit` (documented: malformed packets and packets of
+    /// another protocol than the bound one are silently dropped)
+    fn emittable(e: &G, proto: &Option<IpProtocol>) -> bool {
+        e.valid && e.good() && (proto.is_none() || *proto == Some(IpProtocol::from(e.proto)))
+    }
+
+    fn step_dispatch(s: &mut Socket<'_>, cx: &mut Context, g: &mut Ghost, proto: &Option<IpProtocol>) -> bool {
+        let ok: bool = kani::any();
+        let _ = s.dispatch(cx, |_cx, _p| if ok { Ok(()) } else { Err(()) });
+        // a head that is not emittable is dropped without consulting emit
+        if ok || !emittable(&g.q[0], proto) {
+            g.pop();
+        }
+        ok
+    }
+
+    /// what one `dispatch` hands to `emit`, compared with the ghost entry `e`
+    struct Seen {
+        seen: bool,
+        addr: bool,
+        hdr: bool,
+        len: bool,
+        byte: bool,
+    }
+
+    fn dispatch_recording(s: &mut Socket<'_>, cx: &mut Context, e: &G, emit_ok: bool) -> (Seen, Result<(), ()>) {
+        let mut o = Seen { seen: false, addr: false, hdr: false, len: false, byte: false };
+        let k = any_lt(PD);
+        let r = s.dispatch(cx, |_cx, (ip, payload)| {
+            o.seen = true;
+            // the addresses, protocol and hop limit the user wrote into the header
+            o.addr = ip.src_addr() == IpAddress::Ipv4(src_of(e.tag, e.k2)) && ip.dst_addr() == IpAddress::Ipv4(dst_of(e.tag, e.k2));
+            o.hdr = ip.next_header() == IpProtocol::from(e.proto) && ip.hop_limit() == hop_of(e.tag, e.k2);
+            o.len = e.size >= H4 && payload.len() == e.size - H4 && ip.payload_len() == payload.len();
+            o.byte = k >= payload.len() || payload[k] == pat(e.tag, k);
+            if emit_ok { Ok(()) } else { Err(()) }
+        });
+        (o, r)
+    }
+
+    fn assert_emitted_is(o: &Seen, e: &G) {
+        assert!(e.valid && e.good(), "prop:c09_raw_tx_no_extra_datagram");
+        assert!(o.len, "prop:c09_raw_tx_datagram_whole_not_merged_not_split");
+        assert!(o.byte, "prop:c09_raw_tx_payload_bytes_unmodified");
+        assert!(o.addr, "prop:c09_raw_tx_addresses_as_written_by_user");
+        assert!(o.hdr, "prop:c09_raw_tx_protocol_and_hop_limit_as_written_by_user");
+    }
+
+    /// The transmit queue equals the ghost: MC dispatches emit exactly the ghost's emittable packets, each
+    /// once, whole, in order; the others are dropped, never emitted.
+    fn drain_tx(s: &mut Socket<'_>, cx: &mut Context, g: &Ghost, proto: &Option<IpProtocol>) {
+        assert!(!g.overflow, "prop:c09_raw_tx_more_datagrams_than_metadata_slots");
+        let mut i = 0;
+        while i < MC {
+            let e = g.q[i];
+            let (o, r) = dispatch_recording(s, cx, &e, true);
+            assert!(r.is_ok(), "prop:c09_raw_dispatch_error_only_from_emit");
+            if emittable(&e, proto) {
+                assert!(o.seen, "prop:c09_raw_tx_no_datagram_lost");
+                assert_emitted_is(&o, &e);
+            } else {
+                assert!(!o.seen, "prop:c09_raw_tx_no_extra_datagram");
+            }
+            i += 1;
+        }
+    }
+
+    macro_rules! tx_setup {
+        ($dev:ident, $iface:ident, $cx:ident, $s:ident, $g:ident, $proto:ident) => {
+            env!($dev, $iface, $cx);
+            let $proto = any_proto();
+            sock!($s, none_or_v4(), $proto, 1, 0, any_slots(), PC);
+            let mut $g = Ghost::new();
+        };
+    }
+
+    // @harness props=C09 cfg=KG tier=q to=900 mem=8 unwind=26 opts=nomem covers=4 funcs=raw::Socket::send_slice;raw::Socket::send;raw::Socket::send_with;raw::Socket::dispatch;Ipv4Packet::new_checked;Ipv4Repr::parse;PacketBuffer::enqueue;PacketBuffer::dequeue_with bounds=tx_metadata_slots_2..=3;_payload_ring_56_bytes;_pre-state_=_send,_send_with,_dispatch,_dispatch_(each_may_be_a_no-op);_packets_of_1..=24_bytes_(IPv4_header_without_options_+_0..=4_payload_bytes,_or_malformed);_socket_bound_to_no/IPv4_version_and_no/any_protocol
+    #[kani::proof]
+    pub(crate) fn raw_send() {
+        tx_setup!(dev, iface, cx, s, g, proto);
+        step_send(&mut s, &mut g, VIA_SEND);
+        step_send(&mut s, &mut g, VIA_WITH);
+        step_dispatch(&mut s, cx, &mut g, &proto);
+        step_dispatch(&mut s, cx, &mut g, &proto);
+        let before = g.count();
+        let m = any_packet();
+        let bytes = m.bytes(kani::any());
+        let pcap = s.payload_send_capacity();
+        let mcap = s.packet_send_capacity();
+        let r = s.send_slice(&bytes[..m.size]);
+        match r {
+            Ok(()) => g.push(m),
+            Err(SendError::BufferFull) => {
+                // nothing queued => any datagram up to the payload capacity is accepted
+                assert!(!(before == 0 && m.size <= pcap), "prop:c09_raw_empty_tx_accepts_up_to_capacity");
+            }
+        }
+        kani::cover!(r.is_ok() && before == 2, "third datagram accepted");
+        kani::cover!(r.is_ok() && before == 1 && g.popped && s.send_queue() > g.bytes(), "accepted behind a padding record (ring wrapped)");
+        kani::cover!(r.is_err() && before >= 1 && before < mcap && m.size <= pcap, "refused: payload ring too full");
+        kani::cover!(r.is_err() && before == mcap, "refused: metadata slots full");
+        drain_tx(&mut s, cx, &g, &proto);
+    }
+
+    // @harness props=C09 cfg=KG tier=q to=900 mem=8 unwind=26 opts=nomem covers=3 funcs=raw::Socket::send_with;raw::Socket::send_slice;raw::Socket::dispatch;PacketBuffer::enqueue_with_infallible;PacketBuffer::dequeue_with bounds=tx_metadata_slots_2..=3;_payload_ring_56_bytes;_pre-state_=_send_slice,_send_with,_dispatch,_dispatch_(each_may_be_a_no-op);_max_size_1..=24,_written_packet_1..=max_size_bytes
+    #[kani::proof]
+    pub(crate) fn raw_send_with() {
+        tx_setup!(dev, iface, cx, s, g, proto);
+        step_send(&mut s, &mut g, VIA_SLICE);
+        step_send(&mut s, &mut g, VIA_WITH);
+        step_dispatch(&mut s, cx, &mut g, &proto);
+        step_dispatch(&mut s, cx, &mut g, &proto);
+        let before = g.count();
+        let m = any_packet();
+        let take = m.size;
+        let max = any_le(BL);
+        kani::assume(take <= max);
+        let bytes = m.bytes(kani::any());
+        let pcap = s.payload_send_capacity();
+        let mcap = s.packet_send_capacity();
+        let mut offered = 0usize;
+        let mut called = false;
+        let r = s.send_with(max, |b| {
+            called = true;
+            offered = b.len();
+            copy_into(&mut b[..take], &bytes);
+            take
+        });
+        match r {
+            Ok(n) => {
+                assert!(called && offered == max && n == take, "prop:c09_raw_send_with_offers_max_and_keeps_written_size");
+                g.push(m);
+            }
+            Err(SendError::BufferFull) => {
+                assert!(!called, "prop:c09_raw_send_with_callback_not_called_on_refusal");
+                // nothing queued => any datagram up to the payload capacity is accepted
+                assert!(!(before == 0 && max <= pcap), "prop:c09_raw_empty_tx_accepts_up_to_capacity");
+            }
+        }
+        kani::cover!(r.is_ok() && before == 2 && take < max, "third datagram accepted and shrunk");
+        kani::cover!(r.is_ok() && before == 0 && g.popped, "accepted on a queue emptied by dispatch (read pointer moved)");
+        kani::cover!(r.is_err() && before >= 1 && before < mcap && max <= pcap, "refused: payload ring too full");
+        drain_tx(&mut s, cx, &g, &proto);
+    }
+
+    // @harness props=C09 cfg=KG tier=q to=900 mem=8 unwind=26 opts=nomem covers=4 funcs=raw::Socket::dispatch;raw::Socket::send_slice;raw::Socket::send_with;Ipv4Packet::new_checked;Ipv4Repr::parse;PacketBuffer::dequeue_with bounds=tx_metadata_slots_2..=3;_payload_ring_56_bytes;_pre-state_=_send_slice,_send_with,_dispatch,_send_slice_(each_may_be_a_no-op);_emit_returns_Ok_or_Err;_packets_of_1..=24_bytes_(well-formed_IPv4_or_malformed)
+    #[kani::proof]
+    pub(crate) fn raw_dispatch() {
+        tx_setup!(dev, iface, cx, s, g, proto);
+        step_send(&mut s, &mut g, VIA_SLICE);
+        step_send(&mut s, &mut g, VIA_WITH);
+        step_dispatch(&mut s, cx, &mut g, &proto);
+        step_send(&mut s, &mut g, VIA_SLICE);
+        let before = g.count();
+        let head = g.q[0];
+        let emit_ok: bool = kani::any();
+        let (o, r) = dispatch_recording(&mut s, cx, &head, emit_ok);
+        let em = emittable(&head, &proto);
+        if em {
+            assert!(o.seen, "prop:c09_raw_tx_no_datagram_lost");
+            assert_emitted_is(&o, &head);
+            assert!(r.is_ok() == emit_ok, "prop:c09_raw_dispatch_error_only_from_emit");
+            if emit_ok {
+                g.pop(); // exactly the head leaves the queue
+            }
+            // emit failed: nothing leaves the queue, the same datagram is offered again by the drain below
+        } else {
+            // empty, malformed or wrong protocol: dropped (at most once on the wire), emit not consulted
+            assert!(!o.seen && r.is_ok(), "prop:c09_raw_tx_no_extra_datagram");
+            g.pop();
+        }
+        kani::cover!(em && !emit_ok && before >= 2, "emit Err path taken with two or more queued");
+        kani::cover!(em && emit_ok && before == 3, "emit Ok pops the head, two remain");
+        kani::cover!(em && emit_ok && s.send_queue() > g.bytes(), "head popped in front of a padding record");
+        kani::cover!(head.valid && head.good() && !em && before == 2, "packet of another protocol dropped, one remains");
+        drain_tx(&mut s, cx, &g, &proto);
+    }
+
+    // @harness props=C09,C13 cfg=KG tier=q to=900 mem=8 unwind=26 opts=nomem covers=3 funcs=raw::Socket::poll_at;raw::Socket::send_slice;raw::Socket::send_with;raw::Socket::dispatch bounds=tx_metadata_slots_2..=3;_payload_ring_56_bytes;_script_send_slice,_send_with,_dispatch,_send_slice,_dispatch,_dispatch_(each_may_be_a_no-op);_poll_at_probed_after_every_step
+    #[kani::proof]
+    pub(crate) fn raw_poll_at() {
+        tx_setup!(dev, iface, cx, s, g, proto);
+        assert!(s.poll_at(cx) == PollAt::Ingress, "prop:c13_raw_poll_at_ingress_when_nothing_queued");
+        step_send(&mut s, &mut g, VIA_SLICE);
+        let p1 = s.poll_at(cx);
+        assert!((g.count() > 0) == (p1 == PollAt::Now) && (g.count() == 0) == (p1 == PollAt::Ingress), "prop:c13_raw_poll_at_now_iff_datagram_queued");
+        step_send(&mut s, &mut g, VIA_WITH);
+        let p2 = s.poll_at(cx);
+        assert!((g.count() > 0) == (p2 == PollAt::Now) && (g.count() == 0) == (p2 == PollAt::Ingress), "prop:c13_raw_poll_at_now_iff_datagram_queued");
+        step_dispatch(&mut s, cx, &mut g, &proto);
+        let p3 = s.poll_at(cx);
+        assert!((g.count() > 0) == (p3 == PollAt::Now) && (g.count() == 0) == (p3 == PollAt::Ingress), "prop:c13_raw_poll_at_now_iff_datagram_queued");
+        // a send that may be refused after its padding record was written, then the last datagram leaves
+        let sent = step_send(&mut s, &mut g, VIA_SLICE);
+        let p4 = s.poll_at(cx);
+        assert!(g.count() == 0 || p4 == PollAt::Now, "prop:c13_raw_poll_at_now_while_datagram_queued");
+        let ok = step_dispatch(&mut s, cx, &mut g, &proto);
+        let p5 = s.poll_at(cx);
+        assert!(g.count() == 0 || p5 == PollAt::Now, "prop:c13_raw_poll_at_now_while_datagram_queued");
+        assert!(p5 == PollAt::Now || p5 == PollAt::Ingress, "prop:c13_raw_poll_at_now_or_ingress");
+        // non-spinning: a dispatch that had nothing to emit and leaves nothing queued leaves no deadline behind
+        let offered = emittable(&g.q[0], &proto);
+        let mut seen = false;
+        let _ = s.dispatch(cx, |_cx, _p| {
+            seen = true;
+            Err::<(), ()>(())
+        });
+        assert!(seen == offered, "prop:c09_raw_tx_no_datagram_lost");
+        if !offered {
+            g.pop(); // nothing queued, or a head that is dropped without being emitted
+        }
+        let p6 = s.poll_at(cx);
+        assert!(seen || g.count() > 0 || p6 == PollAt::Ingress, "prop:c13_raw_idle_dispatch_leaves_no_deadline");
+        kani::cover!(p2 == PollAt::Now && p5 == PollAt::Ingress, "queue drained: Now -> Ingress");
+        kani::cover!(!sent && g.count() == 0 && g.popped && ok && p5 == PollAt::Now && p6 == PollAt::Ingress, "only a padding record left: one idle dispatch, then Ingress");
+        kani::cover!(!ok && g.count() == 2, "emit failed with two queued: still Now");
+    }
+
+    // ---------------------------------------------------------------- receive side: script steps
+    /// a symbolic received IPv4 packet (repr + payload), 20 + 0..=4 bytes
+    fn any_rx_packet(proto: &Option<IpProtocol>) -> G {
+        let p = any_le(PD);
+        let pb: u8 = kani::any();
+        // the interface hands the socket only what `accepts` admits
+        kani::assume(proto.is_none() || *proto == Some(IpProtocol::from(pb)));
+        G { valid: true, opt: false, tag: kani::any(), k2: kani::any(), proto: pb, size: H4 + p, b0: 0x45, frag: 0x4000 }
+    }
+
+    fn process_packet(s: &mut Socket<'_>, cx: &mut Context, m: &G) {
+        let payload = [pat(m.tag, 0), pat(m.tag, 1), pat(m.tag, 2), pat(m.tag, 3)];
+        let ip = IpRepr::Ipv4(Ipv4Repr {
+            src_addr: src_of(m.tag, m.k2),
+            dst_addr: dst_of(m.tag, m.k2),
+            next_header: IpProtocol::from(m.proto),
+            payload_len: m.size - H4,
+            hop_limit: hop_of(m.tag, m.k2),
+        });
+        assert!(s.accepts(&ip), "prop:c09_raw_accepts_bound_version_and_protocol");
+        s.process(cx, &ip, &payload[..m.size - H4]);
+    }
+
+    /// One accepted packet (skipped or dropped as a whole: the step may be a no-op).  A padding record alone
+    /// is shorter than the packet it precedes, so acceptance is visible in the byte count.
+    fn step_process(s: &mut Socket<'_>, cx: &mut Context, g: &mut Ghost, proto: &Option<IpProtocol>) -> bool {
+        if kani::any() {
+            return false;
+        }
+        let m = any_rx_packet(proto);
+        let before = s.recv_queue();
+        process_packet(s, cx, &m);
+        let ok = s.recv_queue() >= before + m.size;
+        if ok {
+            g.push(m);
+        }
+        ok
+    }
+
+    fn step_recv(s: &mut Socket<'_>, g: &mut Ghost) {
+        if kani::any() {
+            let _ = s.recv();
+            g.pop();
+        }
+    }
+
+    /// the received bytes are the IPv4 packet of `e`, whole: header fields as re-serialized from the repr
+    /// (identification, flags and checksum are not part of the repr), payload unmodified
+    fn bytes_are(buf: &[u8], e: &G) -> bool {
+        if buf.len() != e.size || e.size < H4 {
+            return false;
+        }
+        let k = any_lt(PD);
+        let a = any_lt(4);
+        buf[0] == 0x45
+            && buf[2] == 0
+            && buf[3] == e.size as u8
+            && buf[8] == hop_of(e.tag, e.k2)
+            && buf[9] == e.proto
+            && buf[12 + a] == src_of(e.tag, e.k2).octets()[a]
+            && buf[16 + a] == dst_of(e.tag, e.k2).octets()[a]
+            && (k >= e.size - H4 || buf[H4 + k] == pat(e.tag, k))
+    }
+
+    /// the receive queue equals the ghost (an `opt` tail entry may be missing as a whole); returns whether
+    /// the `opt` entry was delivered
+    fn drain_rx(s: &mut Socket<'_>, g: &Ghost) -> bool {
+        assert!(!g.overflow, "prop:c09_raw_rx_more_datagrams_than_metadata_slots");
+        let mut tail = false;
+        let mut i = 0;
+        while i < MC {
+            let e = g.q[i];
+            match s.recv() {
+                Ok(buf) => {
+                    assert!(e.valid, "prop:c09_raw_rx_no_extra_datagram");
+                    assert!(buf.len() == e.size, "prop:c09_raw_rx_datagram_whole_not_merged_not_split");
+                    assert!(bytes_are(buf, &e), "prop:c09_raw_rx_packet_bytes_unmodified");
+                    if e.opt {
+                        tail = true;
+                    }
+                }
+                Err(err) => {
+                    assert!(err == RecvError::Exhausted, "prop:c09_raw_recv_error_kind");
+                    assert!(!e.valid || e.opt, "prop:c09_raw_rx_no_datagram_lost");
+                }
+            }
+            i += 1;
+        }
+        tail
+    }
+
+    macro_rules! rx_setup {
+        ($dev:ident, $iface:ident, $cx:ident, $s:ident, $g:ident, $proto:ident) => {
+            env!($dev, $iface, $cx);
+            let $proto = any_proto();
+            sock!($s, none_or_v4(), $proto, any_slots(), PC, 1, 0);
+            let mut $g = Ghost::new();
+        };
+    }
+
+    // @harness props=C09 cfg=KG tier=q to=900 mem=8 unwind=26 opts=nomem covers=4 funcs=raw::Socket::process;raw::Socket::accepts;raw::Socket::recv;Ipv4Repr::emit;PacketBuffer::enqueue;PacketBuffer::dequeue bounds=rx_metadata_slots_2..=3;_payload_ring_56_bytes;_pre-state_=_process,_process,_recv,_recv_(each_may_be_a_no-op);_IPv4_packets_with_0..=4_payload_bytes,_any_protocol_the_socket_accepts
+    #[kani::proof]
+    pub(crate) fn raw_process_recv() {
+        rx_setup!(dev, iface, cx, s, g, proto);
+        step_process(&mut s, cx, &mut g, &proto);
+        step_process(&mut s, cx, &mut g, &proto);
+        step_recv(&mut s, &mut g);
+        step_recv(&mut s, &mut g);
+        let before = g.count();
+        let mut m = any_rx_packet(&proto);
+        let pcap = s.payload_recv_capacity();
+        let mcap = s.packet_recv_capacity();
+        process_packet(&mut s, cx, &m);
+        // delivered exactly once, header and payload, or not at all
+        m.opt = true;
+        g.push(m);
+        let bytes_after = s.recv_queue();
+        let delivered = drain_rx(&mut s, &g);
+        if !delivered {
+            assert!(!(before == 0 && m.size <= pcap), "prop:c09_raw_empty_rx_accepts_up_to_capacity");
+        } else {
+            assert!(before < mcap && m.size <= pcap, "prop:c09_raw_rx_delivery_within_capacity");
+        }
+        kani::cover!(delivered && before == 2, "third datagram delivered");
+        kani::cover!(delivered && before == 1 && g.popped && bytes_after > g.bytes(), "delivered behind a padding record (ring wrapped)");
+        kani::cover!(!delivered && before >= 1 && before < mcap && m.size <= pcap, "dropped whole: payload ring too full");
+        kani::cover!(!delivered && before == mcap, "dropped whole: metadata slots full");
+    }
+
+    // @harness props=C09 cfg=KG tier=q to=900 mem=8 unwind=26 opts=nomem covers=3 funcs=raw::Socket::recv_slice;raw::Socket::recv;raw::Socket::process bounds=rx_metadata_slots_2..=3;_payload_ring_56_bytes;_pre-state_=_process,_process,_recv,_process_(each_may_be_a_no-op);_user_buffer_0..=24_bytes
+    #[kani::proof]
+    pub(crate) fn raw_recv_truncated() {
+        rx_setup!(dev, iface, cx, s, g, proto);
+        step_process(&mut s, cx, &mut g, &proto);
+        step_process(&mut s, cx, &mut g, &proto);
+        step_recv(&mut s, &mut g);
+        step_process(&mut s, cx, &mut g, &proto);
+        let head = g.q[0];
+        let ulen = any_le(BL);
+        let mut ubuf = [0xEEu8; BL];
+        let r = s.recv_slice(&mut ubuf[..ulen]);
+        match r {
+            Ok(n) => {
+                assert!(head.valid, "prop:c09_raw_rx_no_extra_datagram");
+                assert!(n == head.size && n <= ulen, "prop:c09_raw_recv_slice_whole_datagram_or_error");
+                assert!(bytes_are(&ubuf[..n], &head), "prop:c09_raw_rx_packet_bytes_unmodified");
+                g.pop();
+            }
+            Err(RecvError::Truncated) => {
+                // documented: "the packet is dropped and a RecvError::Truncated error is returned"
+                assert!(head.valid && ulen < head.size, "prop:c09_raw_truncated_only_when_buffer_too_small");
+                g.pop();
+            }
+            Err(RecvError::Exhausted) => assert!(!head.valid, "prop:c09_raw_rx_no_datagram_lost"),
+        }
+        kani::cover!(r == Err(RecvError::Truncated) && g.count() >= 1, "short user buffer: Truncated, next datagram still queued");
+        kani::cover!(matches!(r, Ok(n) if n == ulen && n >= 22) && g.count() >= 1, "exact-size user buffer");
+        kani::cover!(matches!(r, Ok(n) if n < ulen), "larger user buffer");
+        drain_rx(&mut s, &g);
+    }
+
+    // @harness props=C09 cfg=KG tier=q to=900 mem=8 unwind=26 opts=nomem covers=3 funcs=raw::Socket::peek;raw::Socket::peek_slice;raw::Socket::recv;PacketBuffer::peek bounds=rx_metadata_slots_2..=3;_payload_ring_56_bytes;_pre-state_=_process,_process,_recv,_process_(each_may_be_a_no-op);_user_buffer_0..=24_bytes
+    #[kani::proof]
+    pub(crate) fn raw_peek() {
+        rx_setup!(dev, iface, cx, s, g, proto);
+        step_process(&mut s, cx, &mut g, &proto);
+        step_process(&mut s, cx, &mut g, &proto);
+        step_recv(&mut s, &mut g);
+        step_process(&mut s, cx, &mut g, &proto);
+        let head = g.q[0];
+        match s.peek() {
+            Ok(buf) => {
+                assert!(head.valid, "prop:c09_raw_rx_no_extra_datagram");
+                assert!(buf.len() == head.size, "prop:c09_raw_rx_datagram_whole_not_merged_not_split");
+                assert!(bytes_are(buf, &head), "prop:c09_raw_rx_packet_bytes_unmodified");
+            }
+            Err(e) => assert!(e == RecvError::Exhausted && !head.valid, "prop:c09_raw_rx_no_datagram_lost"),
+        }
+        let ulen = any_le(BL);
+        let mut ubuf = [0xEEu8; BL];
+        let mut trunc = false;
+        match s.peek_slice(&mut ubuf[..ulen]) {
+            Ok(n) => {
+                assert!(head.valid, "prop:c09_raw_rx_no_extra_datagram");
+                assert!(n == head.size && n <= ulen, "prop:c09_raw_peek_slice_whole_datagram_or_error");
+                assert!(bytes_are(&ubuf[..n], &head), "prop:c09_raw_rx_packet_bytes_unmodified");
+            }
+            Err(RecvError::Truncated) => {
+                assert!(head.valid && ulen < head.size, "prop:c09_raw_truncated_only_when_buffer_too_small");
+                // documented: "no data is copied into the provided buffer"
+                let k = any_lt(BL);
+                assert!(ubuf[k] == 0xEE, "prop:c09_raw_peek_slice_truncated_copies_nothing");
+                trunc = true;
+            }
+            Err(RecvError::Exhausted) => assert!(!head.valid, "prop:c09_raw_rx_no_datagram_lost"),
+        }
+        kani::cover!(trunc && g.count() >= 2, "peek_slice Truncated with two queued");
+        kani::cover!(!trunc && head.valid && head.size >= 22, "peek_slice copied the head");
+        kani::cover!(head.valid && g.popped, "peek after an earlier recv");
+        // peeking consumes nothing, also when it reported Truncated
+        drain_rx(&mut s, &g);
+    }
+
+    // ---------------------------------------------------------------- accepts
+    // @harness props=C09 cfg=KG tier=q to=600 mem=8 unwind=26 opts=nomem covers=3 funcs=raw::Socket::accepts;raw::Socket::new bounds=socket_bound_to_no/IPv4/IPv6_version_and_no/any_protocol;_IPv4_or_IPv6_repr_with_any_next_header
+    #[kani::proof]
+    pub(crate) fn raw_accepts() {
+        let bver: u8 = kani::any();
+        let ver = match bver {
+            0 => None,
+            1 => Some(IpVersion::Ipv4),
+            #[cfg(feature = "proto-ipv6")]
+            2 => Some(IpVersion::Ipv6),
+            _ => None,
+        };
+        let proto = any_proto();
+        sock!(s, ver, proto, 1, 0, 1, 0);
+        assert!(s.ip_version() == ver && s.ip_protocol() == proto, "prop:c09_raw_new_records_binding");
+        let nh: u8 = kani::any();
+        let mut v4: bool = true;
+        #[cfg(feature = "proto-ipv6")]
+        {
+            v4 = kani::any();
+        }
+        let ip = if v4 {
+            IpRepr::Ipv4(Ipv4Repr { src_addr: LOCAL, dst_addr: LOCAL, next_header: IpProtocol::from(nh), payload_len: 0, hop_limit: 64 })
+        } else {
+            #[cfg(feature = "proto-ipv6")]
+            {
+                IpRepr::Ipv6(Ipv6Repr { src_addr: Ipv6Address::LOCALHOST, dst_addr: Ipv6Address::LOCALHOST, next_header: IpProtocol::from(nh), payload_len: 0, hop_limit: 64 })
+            }
+            #[cfg(not(feature = "proto-ipv6"))]
+            {
+                unreachable!()
+            }
+        };
+        let acc = s.accepts(&ip);
+        let ver_ok = match ver {
+            None => true,
+            Some(IpVersion::Ipv4) => v4,
+            #[allow(unreachable_patterns)]
+            Some(_) => !v4,
+        };
+        let proto_ok = match proto {
+            None => true,
+            Some(p) => u8::from(p) == nh,
+        };
+        assert!(acc == (ver_ok && proto_ok), "prop:c09_raw_accepts_iff_version_and_protocol_match");
+        kani::cover!(acc && ver.is_some() && proto.is_some(), "bound version and protocol match");
+        kani::cover!(!acc && ver_ok, "right version, other protocol");
+        kani::cover!(!acc && proto_ok && proto.is_some(), "right protocol, other version");
+    }
+
+    // documented on `send`: "If the buffer is filled in a way that does not match the socket's IP version or
+    // protocol, the packet will be silently dropped."
+    // @harness props=C09 cfg=KG tier=q to=600 mem=8 unwind=26 opts=nomem covers=1 funcs=raw::Socket::send_slice;raw::Socket::dispatch bounds=socket_bound_to_IPv6;_one_well-formed_IPv4_packet_of_20..=24_bytes
+    #[cfg(feature = "proto-ipv6")]
+    #[kani::proof]
+    pub(crate) fn raw_version_filter() {
+        env!(dev, iface, cx);
+        sock!(s, Some(IpVersion::Ipv6), None, 1, 0, 1, BL);
+        let mut m = any_packet();
+        kani::assume(m.good());
+        let bytes = m.bytes(kani::any());
+        assert!(s.send_slice(&bytes[..m.size]).is_ok(), "prop:c09_raw_empty_tx_accepts_up_to_capacity");
+        let mut seen = false;
+        let r = s.dispatch(cx, |_cx, _p| {
+            seen = true;
+            Ok::<(), ()>(())
+        });
+        kani::cover!(m.size == BL, "IPv4 packet with 4 payload bytes queued on an IPv6-bound socket");
+        assert!(!seen, "prop:c09_raw_packet_of_other_ip_version_dropped_as_documented");
+        assert!(s.poll_at(cx) == PollAt::Ingress, "prop:c13_raw_poll_at_ingress_when_nothing_queued");
+    }
+
+    // an empty datagram is accepted by `send`; `dispatch` (i.e. `Interface::poll`) must drop it, not panic
+    // @harness props=C09 cfg=KG tier=q to=600 mem=8 unwind=26 opts=nomem covers=1 funcs=raw::Socket::send;raw::Socket::dispatch;IpVersion::of_packet bounds=one_datagram_of_0_bytes
+    #[kani::proof]
+    pub(crate) fn raw_send_empty_datagram() {
+        env!(dev, iface, cx);
+        sock!(s, none_or_v4(), any_proto(), 1, 0, 1, BL);
+        let sent = s.send(0).is_ok();
+        kani::cover!(sent, "empty datagram accepted by send");
+        let mut seen = false;
+        let r = s.dispatch(cx, |_cx, _p| {
+            seen = true;
+            Ok::<(), ()>(())
+        });
+        assert!(r.is_ok() && !seen, "prop:c09_raw_tx_no_extra_datagram");
+        assert!(s.poll_at(cx) == PollAt::Ingress, "prop:c13_raw_poll_at_ingress_when_nothing_queued");
+    }
+
+    // @harness props=C09 kind=mustfail cfg=KG tier=q to=600 mem=8 unwind=26 opts=nomem
+    #[kani::proof]
+    pub(crate) fn raw_must_fail() {
+        tx_setup!(dev, iface, cx, s, g, proto);
+        step_send(&mut s, &mut g, VIA_SLICE);
+        step_send(&mut s, &mut g, VIA_SLICE);
+        let head = g.q[0];
+        let (o, r) = dispatch_recording(&mut s, cx, &head, false);
+        // false: a failed emit does NOT remove the head
+        g.pop();
+        drain_tx(&mut s, cx, &g, &proto);
+    }
 }
